@@ -1,7 +1,7 @@
 ------------------------------- MODULE QuaMC -------------------------------
 (***************************************************************************)
 (* Generator of small .qua documents: every choice of present / omitted     *)
-(* StartTime, Lane, EndTime, KeySounds, Multiplier keys, empty sections,    *)
+(* StartTime, Lane, EndTime (also EndTime 0), KeySounds, Multiplier keys,   *)
 (* hits only / holds only.  Invariants: the denotation assigns exactly one  *)
 (* note to every object, omitted keys take the defaults, holds have the     *)
 (* declared duration.                                                       *)
@@ -18,7 +18,7 @@ Ks(n) == [tag |-> "list", num |-> n]
 Init == objs = <<>> /\ tps = <<>> /\ svs = <<>> /\ done = FALSE
 AddObj == /\ ~done /\ Len(objs) < MaxObj /\ tps = <<>> /\ svs = <<>>
           /\ \E st \in {Absent, I(1000000), I(0 - 500000)}, lane \in {I(1000), I(4000), I(7000)},
-                en \in {Absent, I(1500000)}, ks \in {Absent, Ks(0), Ks(1)} :
+                en \in {Absent, I(1500000), I(0)}, ks \in {Absent, Ks(0), Ks(1)} :
                objs' = Append(objs, [st |-> st, lane |-> lane, end |-> en, ks |-> ks])
           /\ UNCHANGED <<tps, svs, done>>
 AddTp == /\ ~done /\ Len(tps) < MaxTp /\ svs = <<>>
@@ -38,7 +38,7 @@ Doc == [objs |-> [i \in DOMAIN objs |-> [keys |-> <<>>] @@ objs[i]], tps |-> [i 
         top |-> <<"HitObjects", "TimingPoints", "SliderVelocities">>]
 DenotationTotal == Len(DenHits(Doc)) + Len(DenHolds(Doc)) = Len(objs)
 Defaults == /\ \A i \in DOMAIN DenHits(Doc) : DenHits(Doc)[i].c \in {0, 3, 6}
-            /\ \A i \in DOMAIN DenHolds(Doc) : DenHolds(Doc)[i].t + DenHolds(Doc)[i].n = 1500000
+            /\ \A i \in DOMAIN DenHolds(Doc) : DenHolds(Doc)[i].t + DenHolds(Doc)[i].n \in {1500000, 0}
             /\ \A i \in DOMAIN svs : svs[i].mult.tag = "absent" => DenSvs(Doc)[i].m = 10000
             /\ \A i \in DOMAIN tps : tps[i].st.tag = "absent" => DenBpms(Doc)[i].t = 0
 
